@@ -266,6 +266,23 @@ impl<'a> Monitor for C11<'a> {
                 }
             }
         }
+        // a right the board does not have, on every file where a rook of that colour could carry it
+        for (ci, c) in refmodel::Col::ALL.iter().enumerate() {
+            if let Some(k) = v.pos.king_sq(*c) {
+                if refmodel::rank_of(k) == c.back_rank() {
+                    for f in 0..8u8 {
+                        if v.pos.sq[refmodel::sq(f, c.back_rank()) as usize] == Some((Kind::R, *c)) {
+                            let w = if f > refmodel::file_of(k) { refmodel::SHORT } else { refmodel::LONG };
+                            if v.pos.rights[ci][w].is_none() {
+                                let mut p = v.pos.clone();
+                                p.rights[ci][w] = Some(f);
+                                variants.push(p);
+                            }
+                        }
+                    }
+                }
+            }
+        }
         if v.pos.ep.is_some() {
             for f in 0..8u8 {
                 let mut p = v.pos.clone();
@@ -326,7 +343,12 @@ pub fn run(run: &mut Run) {
         plan.raws.push((Box::new(ThreeMen { bk: None }), bd(0, 0)));
         plan.raws.push((Box::new(Castle { extra: 1, ek_rank2: false }), bd(0, 0)));
         plan.raws.push((Box::new(EpUniverse::reduced()), bd(0, 0)));
+        plan.lines = Some(bd(1, 1));
+        plan.raws.push((Box::new(CastlePlay { visitors: vec![Kind::R] }), bd(3, 0)));
     } else {
+        plan.lines = Some(bd(2, 1));
+        plan.walk = Some((960, 60, 1, 7, bd(0, 1)));
+        plan.raws.push((Box::new(CastlePlay { visitors: vec![Kind::R, Kind::Q, Kind::N] }), bd(3, 0)));
         plan.start = Some(bd(4, 1));
         plan.mid = Some(bd(3, 1));
         plan.r960 = Some(bd(1, 0));
